@@ -236,7 +236,6 @@ impl CheckedTransaction {
     /// now fail due to changes in the global state.
     ///
     /// NOTE: excludes nonce and balance checks.
-    #[expect(unused, reason = "will be used when CheckTx_Recheck handled properly")]
     pub(crate) async fn run_mutable_checks<S: StateRead>(
         &self,
         state: S,
